@@ -219,6 +219,9 @@ func plansFor(prop string, th bool) []plan {
 			{name: "scaninternal", cfg: baseCfg, mon: sm, alpha: a, depth: d(3, 4), need: [][]string{{"set"}}},
 			{name: "scaninternal-core-deeper", cfg: baseCfg, mon: sm, alpha: a[:9], depth: d(4, 5), need: [][]string{{"set"}}},
 			{name: "scaninternal-l0+l6", cfg: baseCfg, mon: sm, pre: l0l6, alpha: a, depth: d(2, 3), need: [][]string{{"set"}}},
+			// ScanInternal THROUGH a snapshot / file-only snapshot that pins older versions, which
+			// later writes shadow and a flush or compaction puts into the same table
+			{name: "scaninternal-through-snapshots", cfg: baseCfg, mon: sm, pre: []hx.Op{setA, setB}, alpha: []hx.Op{snap, efos, setA, delB, drAC, flush, compact, rksAC, setC, closesnap}, depth: d(4, 5), need: [][]string{{"snap", "efos"}, {"flush", "compact"}}},
 		}
 	case "C47":
 		cm := monitors{latest: true, closeLeak: true}
